@@ -181,7 +181,7 @@ class C01(Check):
     rule = DOC_RULE
     obligations = [("main", "C01a", "C01_ordered"), ("main", "C01b", "unpadded_pad"), ("main", "C01b", "fill_pad"),
                    ("main", "C01b", "lineCount_pad"), ("main", "C01b", "pad_app"), ("main", "L2BndS", "parseBlocks_bounds"),
-                   ("stream", "BPProof", "next_block_sim"), ("stream", "C08", "C08_stream_eq")]
+                   ("stream", "BPProof", "next_block_sim"), ("stream", "C08", "C08_stream_eq"), ("main", "Uncond", "parseStream_eq_small")]
     assumptions = ["aliasing of Source with the caller's buffer and non-modification of the buffer are memory facts: observed on the implementation by the oracle (pointer comparison, copy comparison), not proved",
                    "proved for every input: source order and disjointness (C01_ordered), ends bounded by the line read (parseBlocks_bounds), padding bookkeeping; gap bytes blank and line-boundary ends are decided by the correspondence plus the oracle on sampled inputs"]
 
@@ -213,10 +213,12 @@ reg(C01("C01"))
 
 class C02(TreeCheck):
     obligations = [("main", "L2BndS", "parseBlocks_bounds"), ("main", "C01a", "C01_ordered"), ("main", "NoPanicAll", "parseBlocks_no_panic"),
-                   ("main", "BlockSpans", "parseBlocks_block_spans"), ("main", "BlockSpans", "parseFull_block_spans")]
+                   ("main", "BlockSpans", "parseBlocks_block_spans"), ("main", "BlockSpans", "parseFull_block_spans"),
+                   # SPANS-PENDING ("main", "InlineSpans", "parseInlines_spans"), ("main", "InlineSpans", "parseInlines_spans_reduction"),
+                   ("main", "Total", "parseBlocks_total")]
     proj = staticmethod(proj_spans)
     what = "span structure"
-    assumptions = ["partial: proved for every input: every block span is valid, lies inside its parent and consecutive block children are ordered and disjoint, root starts are non-negative (parseFull_block_spans), and the ends of blocks and inline entries are bounded by the line read so far; the inline-level clauses (spans of inline nodes after emphasis / link surgery) and the character-boundary clause are decided by the correspondence, the span oracle and the formal statement evaluated on the implementation's trees"]
+    assumptions = ["partial: proved for every input: every block span is valid, lies inside its parent and consecutive block children are ordered and disjoint, root starts are non-negative (parseFull_block_spans), and the ends of blocks and inline entries are bounded by the line read so far; inline level: for every leaf block whose entry list satisfies the executable condition entriesOK (entries valid, ordered, inside the block, Indent entries one byte wide, no entry ending on a backslash-newline inside a link tail), every inline node produced by parseInlines (after emphasis processing and link surgery) has a valid span inside its parent, siblings ordered and disjoint (InlineSpans.parseInlines_spans); without the last clause of entriesOK the statement is false, witness proved (parseInlines_spans_literal_false: defect D23, repaired in /repo); that the block layer always produces entriesOK entry lists is not proved; that and the character-boundary clause are decided by the correspondence, the span oracle and the formal statement evaluated on the implementation's trees"]
 
 
 reg(C02("C02"))
@@ -278,9 +280,9 @@ def hostile(seed, n):
 
 class C04(Check):
     rule = DOC_RULE + "; plus hostile inputs: nesting hundreds deep, every construct left unterminated at end of input, invalid UTF-8, NUL and CR runs"
-    obligations = [("main", "NoPanicAll", "parseBlocks_no_panic"), ("main", "RecBounds", "atx_bounds"), ("main", "CursorX", "consume_all"),
+    obligations = [("main", "Uncond", "C04_block_layer_total"), ("main", "Total", "parseBlocks_total"), ("main", "NoPanicAll", "parseBlocks_no_panic"), ("main", "RecBounds", "atx_bounds"), ("main", "CursorX", "consume_all"),
                    ("walk", "W2P", "run_refines_spec"), ("stream", "ReaderProof", "readline_sim"), ("misc", "Sticky", "C20_healthy")]
-    assumptions = ["partial: proved: the block layer never reports a panic site (every input), Walk terminates with fuel 2*size+1, readline terminates under any schedule, the renderer/formatter models are total by construction; fuel sufficiency of the line loop and of the inline parser are observed (the model never reports a fuel code on any case) rather than proved",
+    assumptions = ["partial: proved: the block layer is total for every input (Total.parseBlocks_total: parseBlocks never reports a panic site and never runs out of any of its fuels: outer loop, line loop, descendOpenBlocks, openNewBlocks, codePoint reader), Walk terminates with fuel 2*size+1, readline terminates under any schedule, the renderer/formatter models are total by construction; fuel sufficiency of the inline parser is observed (the model never reports a fuel code on any case) rather than proved",
                    "'does not loop forever' on the implementation is a 20 s watchdog per case"]
 
     def jobs(self, seed, tier):
@@ -571,8 +573,8 @@ class C14(Check):
                    ("recog", "ATXProof", "parseATXHeading_correct"),
                    ("main", "EolInv", "recognizers_eol_invariant"), ("main", "EolInv", "recognizers_eolRun_invariant"),
                    ("main", "BlankPrefix", "parseBlocks_blank_prefix_partial"), ("main", "BlankPrefix", "skipLoop_blank_prefix_partial"),
-                   ("main", "BlankPrefix", "parseBlocks_blank_prefix_of_total")]
-    assumptions = ["partial: the padding clause is proved on the concrete block machine (parseBlocks_blank_prefix_partial: parseBlocks (B ++ s) = shifted parseBlocks s for blank-line prefixes B, under the side condition that a CR ending B does not fuse with an LF starting s and that the run on s does not end in a fuel code; parseBlocks_blank_prefix_of_total removes the fuel condition given totality) and for any block machine (nb_shift); all five recognizers are proved independent of the line-ending style and of its presence (recognizers_eol_invariant, any run of CR/LF bytes); the whole-parser simulation for the CRLF/CR and final-newline clauses is not proved: correspondence on the variants plus the oracle"]
+                   ("main", "BlankPrefix", "parseBlocks_blank_prefix_of_total"), ("main", "Uncond", "parseBlocks_blank_prefix")]
+    assumptions = ["partial: the padding clause is proved on the concrete block machine (parseBlocks_blank_prefix_partial: parseBlocks (B ++ s) = shifted parseBlocks s for blank-line prefixes B, under the side condition that a CR ending B does not fuse with an LF starting s ; Uncond.parseBlocks_blank_prefix is the statement without any fuel condition, by the totality theorem of the block layer) and for any block machine (nb_shift); all five recognizers are proved independent of the line-ending style and of its presence (recognizers_eol_invariant, any run of CR/LF bytes); the whole-parser simulation for the CRLF/CR and final-newline clauses is not proved: correspondence on the variants plus the oracle"]
 
     def jobs(self, seed, tier):
         base = nocr_docs(seed, tier, 1200, 50000)
@@ -692,8 +694,8 @@ class C08(Check):
     obligations = [("main", "TieStream", "tie_stream"), ("stream", "ReaderProof", "readline_sim"), ("stream", "BPProof", "next_block_sim"), ("stream", "C08", "C08_stream_eq"), ("stream", "C08", "C08_fault"),
                    ("stream", "ReaderProof", "read_spec"),
                    ("main", "StreamRd", "readlineS_sim"), ("main", "StreamSim", "nextBlock_sim"), ("main", "StreamFuel", "nextBlock_adequate"),
-                   ("main", "StreamEq", "parseStream_eq_partial"), ("main", "StreamEq", "parseStream_fault"), ("main", "StreamEq", "parseStream_eq_from_consume")]
-    assumptions = ["on the concrete model (main/Stream.v composed with the real block machine): parseStream_eq_partial — for every input below the block-size limit, every list of read caps (0 allowed), both ways of reporting the final error and every final error code, the streaming run returns exactly the root blocks and code of the in-memory run, the final error, and the same error on three further calls — under the one hypothesis that the in-memory run does not exhaust its outer fuel (code <> -1), which is the still-open totality of the block layer (parseStream_eq_from_consume reduces the unconditional statement to it); nextBlock_adequate: the in-memory nextBlock does not depend on surplus fuel", "C08_stream_eq / C08_fault are proved for the stream-layer model (readline, NextBlock, makeRoot) over an arbitrary block machine satisfying three stated laws, for every input below the block-size limit, every read schedule and every fault point; the tie to parse.go is the correspondence of the concrete streaming model (main/Stream.v: the same readline under a scripted reader composed with the real block machine) with the implementation under the same schedule: root-block headers (StartLine, offsets, Source), final error, its persistence, and the Read-call log; equality of the trees and of the reference map between the two entry points is judged on the implementation by the oracle",
+                   ("main", "StreamEq", "parseStream_eq_partial"), ("main", "StreamEq", "parseStream_fault"), ("main", "StreamEq", "parseStream_eq_from_consume"), ("main", "Uncond", "parseStream_eq_small"), ("main", "Total", "parseBlocks_total")]
+    assumptions = ["on the concrete model (main/Stream.v composed with the real block machine): Uncond.parseStream_eq_small is the unconditional statement (the fuel hypothesis of parseStream_eq_partial is discharged by Total.parseBlocks_total); parseStream_eq_partial — for every input below the block-size limit, every list of read caps (0 allowed), both ways of reporting the final error and every final error code, the streaming run returns exactly the root blocks and code of the in-memory run, the final error, and the same error on three further calls — under the one hypothesis that the in-memory run does not exhaust its outer fuel (code <> -1), which is the still-open totality of the block layer (parseStream_eq_from_consume reduces the unconditional statement to it); nextBlock_adequate: the in-memory nextBlock does not depend on surplus fuel", "C08_stream_eq / C08_fault are proved for the stream-layer model (readline, NextBlock, makeRoot) over an arbitrary block machine satisfying three stated laws, for every input below the block-size limit, every read schedule and every fault point; the tie to parse.go is the correspondence of the concrete streaming model (main/Stream.v: the same readline under a scripted reader composed with the real block machine) with the implementation under the same schedule: root-block headers (StartLine, offsets, Source), final error, its persistence, and the Read-call log; equality of the trees and of the reference map between the two entry points is judged on the implementation by the oracle",
                    "Extract and Rewrite are functions of the blocks, so equality of trees and reference map follows from equality of the blocks"]
 
     def jobs(self, seed, tier):
